@@ -2,7 +2,7 @@ CONSTANTS
   MaxLen = 3
   CounterWidth = 1
   CounterLimit = 3
-  Alphabet = {97, 65, 95, 49}
+  Alphabet <- SeqSymbols
   MaxNameLen = 2
   MaxSeq = 4
   Affixes <- SeqAffixes
